@@ -129,6 +129,7 @@ class StreamMixin:
                 pass
             else:
                 raise Unsupported("fread destination %r" % (tgt,))
+        self._logw(st, f.id, ("pos",))
         # cursor and return value
         if cn == 1:
             f.pos = simp(z3.If(fits, old + total, z3.If(f.size > old, f.size, old)))
@@ -174,6 +175,7 @@ class StreamMixin:
         st.assume(z3.Implies(z3.And(tgt >= 0, tgt <= f.size), ok))
         st.assume(z3.Implies(tgt < 0, z3.Not(ok)))
         f.pos = simp(z3.If(ok, tgt, f.pos))
+        self._logw(st, f.id, ("pos",))
         return z3.If(ok, z3.IntVal(0), z3.IntVal(-1))
 
     def bi_ftell(self, st, args, n):
@@ -183,6 +185,7 @@ class StreamMixin:
     def bi_fclose(self, st, args, n):
         f = self._file(st, args[0], n, "fclose")
         f.closed = True
+        self._logw(st, f.id, ("closed",))
         return z3.IntVal(0)
 
     def bi_fopen(self, st, args, n):
